@@ -6,6 +6,7 @@ import itertools
 from sa import AnalysisError
 from sa.kinds import (key, utext, call_name, recv_text, calls_in, node_calls, get_effects, loop_body_exits_early)
 from sa.cfg import walk_calls, walk_nodes
+from sa.astutil import canon_text as ct
 
 EXPLANATION = (
     "Decided part of C11 (the adoption / lookup sentence and the status mapping; not convergence): (R1) key "
@@ -184,7 +185,7 @@ def run(ctx, rep):
         mk2 = [s for s in walk_nodes(pco.node.body, ast.Assign) if utext(s.targets[0]) == "market"]
         good = good and len(mk2) == 1 and utext(mk2[0].value) == "markets.markets[order.market_id]"
     rep.check(good, "R4", key(pco, None, "a complete order leaves the live list of its own market, once"), pco)
-    rp = [n for n in cfg.live_nodes() if n.kind == "cond" and utext(n.exprs[0]) == "order.bet_id != current_order.bet_id"]
+    rp = [n for n in cfg.live_nodes() if n.kind == "cond" and utext(n.exprs[0]) == ct("order.bet_id != current_order.bet_id")]
     good = len(rp) == 1 and ("order.bet_id", True) in [(utext(g.exprs[0]), pol) for g, pol in cfg.guards(rp[0].id)]
     if good:
         t = [m for l, m in rp[0].succ if l == "T"][0]
